@@ -5,7 +5,7 @@ namespace AsmjitVerif.Sections
 
 /-- relocation patches bytes in place: everything `code_size` looks at is unchanged -/
 def SameSizes (a b : Section) : Prop :=
-  b.id = a.id ∧ b.order = a.order ∧ b.align = a.align ∧ b.realSize = a.realSize
+  b.id = a.id ∧ b.order = a.order ∧ b.align = a.align ∧ b.realSize = a.realSize ∧ b.offset = a.offset
 
 theorem patch_length (data : List Byte) (off : Nat) (bytes : List Byte) : (patch data off bytes).length = data.length := by
   unfold patch
@@ -14,7 +14,7 @@ theorem patch_length (data : List Byte) (off : Nat) (bytes : List Byte) : (patch
   | some d => exact writeAt_length h
 
 theorem SameSizes.refl_all (l : List Section) : AllRel SameSizes l l := by
-  have := AllRel.map_right (R := SameSizes) id l (fun a => ⟨rfl, rfl, rfl, rfl⟩)
+  have := AllRel.map_right (R := SameSizes) id l (fun a => ⟨rfl, rfl, rfl, rfl, rfl⟩)
   simpa using this
 
 theorem SameSizes.trans_all {l₁ l₂ l₃ : List Section} (h₁ : AllRel SameSizes l₁ l₂) (h₂ : AllRel SameSizes l₂ l₃) :
@@ -24,7 +24,7 @@ theorem SameSizes.trans_all {l₁ l₂ l₃ : List Section} (h₁ : AllRel SameS
   | cons hr _ ih =>
     cases h₂ with
     | cons hr' hrest' =>
-      exact AllRel.cons ⟨hr'.1.trans hr.1, hr'.2.1.trans hr.2.1, hr'.2.2.1.trans hr.2.2.1, hr'.2.2.2.trans hr.2.2.2⟩ (ih hrest')
+      exact AllRel.cons ⟨hr'.1.trans hr.1, hr'.2.1.trans hr.2.1, hr'.2.2.1.trans hr.2.2.1, hr'.2.2.2.1.trans hr.2.2.2.1, hr'.2.2.2.2.trans hr.2.2.2.2⟩ (ih hrest')
 
 theorem modifySec_sizes (secs : List Section) (id : Nat) (f : Section → Section) (hf : ∀ s, SameSizes s (f s)) :
     AllRel SameSizes secs (modifySec secs id f) := by
@@ -33,10 +33,10 @@ theorem modifySec_sizes (secs : List Section) (id : Nat) (f : Section → Sectio
   intro a
   split
   · exact hf a
-  · exact ⟨rfl, rfl, rfl, rfl⟩
+  · exact ⟨rfl, rfl, rfl, rfl, rfl⟩
 
 theorem sameSizes_patch (s : Section) (d : List Byte) (hd : d.length = s.data.length) : SameSizes s { s with data := d } := by
-  refine ⟨rfl, rfl, rfl, ?_⟩
+  refine ⟨rfl, rfl, rfl, ?_, rfl⟩
   unfold Section.realSize Section.bufSize
   simp [hd]
 
@@ -152,7 +152,7 @@ theorem roundUp_mono (x y a : Nat) (h : x ≤ y) : roundUp x a ≤ roundUp y a :
   · exact Nat.mul_le_mul_right _ (Nat.div_le_div_right (by omega))
 
 /-- same alignments, no real size larger: the ideal size does not grow -/
-def Shrinks (a b : Section) : Prop := b.align = a.align ∧ b.realSize ≤ a.realSize
+def Shrinks (a b : Section) : Prop := b.align = a.align ∧ b.realSize ≤ a.realSize ∧ b.offset = a.offset
 
 theorem idealEnd_mono {l l' : List Section} (h : AllRel Shrinks l l') (x y : Nat) (hxy : y ≤ x) : idealEnd y l' ≤ idealEnd x l := by
   induction h generalizing x y with
@@ -160,11 +160,11 @@ theorem idealEnd_mono {l l' : List Section} (h : AllRel Shrinks l l') (x y : Nat
   | @cons a b l₁ l₂ hr _ ih =>
     unfold idealEnd
     by_cases hb : b.realSize ≠ 0
-    · have ha : a.realSize ≠ 0 := by have := hr.2; omega
+    · have ha : a.realSize ≠ 0 := by have := hr.2.1; omega
       rw [if_pos hb, if_pos ha]
       apply ih
       have := roundUp_mono y x a.align hxy
-      rw [hr.1]; have := hr.2; omega
+      rw [hr.1]; have := hr.2.1; omega
     · rw [if_neg hb]
       by_cases ha : a.realSize ≠ 0
       · rw [if_pos ha]
@@ -194,7 +194,15 @@ theorem sameSizes_keys {l l' : List Section} (h : AllRel SameSizes l l') : AllRe
   h.imp (fun _ _ hab => ⟨hab.1, hab.2.1, hab.2.2.1⟩)
 
 theorem sameSizes_shrinks {l l' : List Section} (h : AllRel SameSizes l l') : AllRel Shrinks l l' :=
-  h.imp (fun _ _ hab => ⟨hab.2.2.1, Nat.le_of_eq hab.2.2.2⟩)
+  h.imp (fun _ _ hab => ⟨hab.2.2.1, Nat.le_of_eq hab.2.2.2.1, hab.2.2.2.2⟩)
+
+theorem Shrinks.trans_all {l₁ l₂ l₃ : List Section} (h₁ : AllRel Shrinks l₁ l₂) (h₂ : AllRel Shrinks l₂ l₃) : AllRel Shrinks l₁ l₃ := by
+  induction h₁ generalizing l₃ with
+  | nil => cases h₂; exact AllRel.nil
+  | cons hr _ ih =>
+    cases h₂ with
+    | cons hr' hrest' =>
+      exact AllRel.cons ⟨hr'.1.trans hr.1, Nat.le_trans hr'.2.1 hr.2.1, hr'.2.2.trans hr.2.2⟩ (ih hrest')
 
 /-- the state in which `relocate_to_base` is meant to be called the first time: no entry has a slot yet and the address
     table section reserves at least one slot (8 bytes) per entry -/
@@ -202,12 +210,11 @@ def AddrTabOK (h : Holder) : Prop :=
   (∀ e ∈ h.entries, e.slot = none) ∧
   (∀ id, h.addrTab = some id → ∀ s ∈ h.secs, s.id = id → 8 * h.entries.length ≤ s.realSize)
 
-/-- `relocate_to_base` never increases `code_size()` -/
-theorem relocate_code_size_le (h : Holder) (hinv : InvS h.secs) (hat : AddrTabOK h) (base : Nat) :
-    codeSize (relocate h base).1 ≤ codeSize h := by
+/-- `relocate_to_base` keeps every offset and alignment and enlarges no section -/
+theorem relocate_shrinks (h : Holder) (hat : AddrTabOK h) (base : Nat) : AllRel Shrinks h.secs (relocate h base).1.secs := by
   unfold relocate
   split
-  · exact Nat.le_refl _
+  · exact sameSizes_shrinks (SameSizes.refl_all _)
   · have hk := relocLoop_spec base (((h.addrTab.bind (findSec h.secs)).map (·.offset)).getD 0)
       { secs := h.secs, entries := h.entries, count := 0, table := zeros (((h.addrTab.bind (findSec h.secs)).map (·.vsize)).getD 0) } h.relocs
     dsimp only at hk ⊢
@@ -215,19 +222,14 @@ theorem relocate_code_size_le (h : Holder) (hinv : InvS h.secs) (hat : AddrTabOK
     · rename_i st e heq
       rw [heq] at hk
       dsimp only at hk
-      unfold codeSize
-      exact codeSizeOf_le_of hinv (InvS.transfer (sameSizes_keys hk.1) hinv) (idealEnd_mono (sameSizes_shrinks hk.1) 0 0 (Nat.le_refl _))
+      exact sameSizes_shrinks hk.1
     · rename_i st heq
       rw [heq] at hk
       dsimp only at hk
-      have hinv' : InvS st.secs := InvS.transfer (sameSizes_keys hk.1) hinv
-      have hbase : codeSizeOf st.secs ≤ codeSizeOf h.secs :=
-        codeSizeOf_le_of hinv hinv' (idealEnd_mono (sameSizes_shrinks hk.1) 0 0 (Nat.le_refl _))
       split
       · split
-        · exact hbase
+        · exact sameSizes_shrinks hk.1
         · rename_i id hid
-          unfold codeSize
           dsimp only
           have hcount : st.count ≤ h.entries.length := by
             have := countNone_le h.entries; omega
@@ -238,17 +240,29 @@ theorem relocate_code_size_le (h : Holder) (hinv : InvS h.secs) (hat : AddrTabOK
             intro s hs
             split
             · rename_i hsid
-              refine ⟨rfl, ?_⟩
+              refine ⟨rfl, ?_, rfl⟩
               obtain ⟨a, ha, hab⟩ := hk.1.mem_right s hs
               have hreal := hat.2 id hid a ha (by rw [← hab.1]; simpa using hsid)
-              rw [← hab.2.2.2] at hreal
+              rw [← hab.2.2.2.1] at hreal
               show max (st.count * 8) ((st.table ++ zeros (st.count * 8)).take (st.count * 8)).length ≤ s.realSize
               rw [List.length_take, List.length_append, zeros_length]
               omega
-            · exact ⟨rfl, Nat.le_refl _⟩
-          have hinv'' := InvS.transfer (modifySec_keys st.secs id (fun s =>
-              { s with data := (st.table ++ zeros (st.count * 8)).take (st.count * 8), vsize := st.count * 8 }) (fun s => ⟨rfl, rfl, rfl⟩)) hinv'
-          exact Nat.le_trans (codeSizeOf_le_of hinv' hinv'' (idealEnd_mono hshr 0 0 (Nat.le_refl _))) hbase
-      · exact hbase
+            · exact ⟨rfl, Nat.le_refl _, rfl⟩
+          exact Shrinks.trans_all (sameSizes_shrinks hk.1) hshr
+      · exact sameSizes_shrinks hk.1
+
+/-- `relocate_to_base` never increases `code_size()` -/
+theorem relocate_code_size_le (h : Holder) (hinv : InvS h.secs) (hat : AddrTabOK h) (base : Nat) :
+    codeSize (relocate h base).1 ≤ codeSize h := by
+  unfold codeSize
+  exact codeSizeOf_le_of hinv (InvS.transfer (relocate_keys h base) hinv) (idealEnd_mono (relocate_shrinks h hat base) 0 0 (Nat.le_refl _))
+
+/-- relocation keeps the layout: no overlap appears and no section end moves up -/
+theorem noOverlap_of_shrinks {l l' : List Section} (h : AllRel Shrinks l l') (hno : NoOverlap l) : NoOverlap l' := by
+  unfold NoOverlap at *
+  refine h.pairwise hno ?_
+  intro a a' b b' ha hb hab hne
+  have := hab (by have := hb.2.1; omega)
+  rw [ha.2.2, hb.2.2]; have := ha.2.1; omega
 
 end AsmjitVerif.Sections
